@@ -183,8 +183,16 @@ func (x *Exec) runPoints(when, anchor string, st *State, pos token.Pos) {
 			if label == "" {
 				label = fmt.Sprintf("%s.%s", when, anchor)
 			}
-			x.oblige("assert:"+label, 0, pos, st, t, p.Assert.Text)
-			x.c.assume(st.pc, t)
+			if p.Assume {
+				if x.con == nil || !x.con.Spawns {
+					panic(unsupported("assume points are environment assumptions of spawns-mode functions only"))
+				}
+				x.c.trusted[fmt.Sprintf("ENVIRONMENT ASSUMPTION %s [%s] (about what the goroutines this function starts put on its channels; justified by their contracts, not proved here): %s", x.fi.Key, label, p.Assert.Text)] = true
+				x.c.assume(st.pc, t)
+			} else {
+				x.oblige("assert:"+label, 0, pos, st, t, p.Assert.Text)
+				x.c.assume(st.pc, t)
+			}
 		} else {
 			x.execGhost(p.Do, st, cenv)
 		}
@@ -318,19 +326,122 @@ func (x *Exec) execStmt(s ast.Stmt, st *State, env *Env) Flow {
 		if x.con != nil && x.con.Spawns {
 			// spawns mode: the started goroutine is verified separately against its own contract; here only the actual
 			// arguments are evaluated (bounds obligations, arg(i) points) and the statement is otherwise skipped
-			if _, lit := n.Call.Fun.(*ast.FuncLit); !lit {
+			if fl, lit := n.Call.Fun.(*ast.FuncLit); !lit {
 				for _, a := range n.Call.Args {
 					x.eval(a, st, env)
+				}
+			} else if len(n.Call.Args) == 0 {
+				// `go func() { worker(args…); wg.Done() }()`: the closure is not executed, but each call statement in it
+				// gets its before-points run and its arguments evaluated in the current state
+				for _, bs := range fl.Body.List {
+					es, ok := bs.(*ast.ExprStmt)
+					if !ok {
+						continue
+					}
+					ce, ok := es.X.(*ast.CallExpr)
+					if !ok {
+						continue
+					}
+					for _, a := range x.anchors[es] {
+						x.runPoints("before", a, st, es.Pos())
+					}
+					if calleeOf(ce, env.info) != nil && x.g.funcByObj[calleeOf(ce, env.info)] != nil {
+						for _, a := range ce.Args {
+							x.eval(a, st, env)
+						}
+					}
 				}
 			}
 			x.c.notes[x.fi.Key+": `go` statements are skipped; what the started goroutines do is covered by their own contracts, their scheduling is not modelled"] = true
 			return Flow{normal: st}
 		}
 		panic(unsupported(fmt.Sprintf("statement %T (concurrency / defer)", s)))
-	case *ast.SelectStmt, *ast.DeferStmt:
+	case *ast.TypeSwitchStmt:
+		if x.con != nil && x.con.Spawns {
+			return x.execTypeSwitch(n, st, env)
+		}
+		panic(unsupported("type switch"))
+	case *ast.SelectStmt:
+		if x.con != nil && x.con.Spawns {
+			return x.execSelect(n, st, env)
+		}
+		panic(unsupported(fmt.Sprintf("statement %T (concurrency / defer)", s)))
+	case *ast.DeferStmt:
 		panic(unsupported(fmt.Sprintf("statement %T (concurrency / defer)", s)))
 	}
 	panic(unsupported(fmt.Sprintf("statement %T", s)))
+}
+
+// execSelect (spawns mode): a select is a nondeterministic choice between its communication clauses - every clause is
+// taken to be possible at every execution (no blocking, no fairness); `break` inside a clause leaves the select.
+func (x *Exec) execSelect(n *ast.SelectStmt, st *State, env *Env) Flow {
+	clauses := n.Body.List
+	if len(clauses) == 0 {
+		panic(unsupported("empty select"))
+	}
+	choice := x.c.freshConst("select", "Int")
+	x.c.assume("true", and(app("<=", "0", choice), app("<", choice, fmt.Sprint(len(clauses)))))
+	x.c.notes[x.fi.Key+": select is a free choice among its clauses (every clause possible every time; blocking, fairness and closed channels are not modelled)"] = true
+	var out Flow
+	for i, c := range clauses {
+		cc := c.(*ast.CommClause)
+		s := st.clone()
+		s.pc = x.namePC(and(st.pc, eq(choice, fmt.Sprint(i))))
+		if cc.Comm != nil {
+			f := x.execStmt(cc.Comm, s, env)
+			s = f.normal
+		}
+		var f Flow
+		if s != nil {
+			f = x.execBlock(cc.Body, s, env)
+		}
+		out = Flow{normal: x.merge(x.merge(out.normal, f.normal), f.brk), brk: out.brk, cont: x.merge(out.cont, f.cont), ret: x.merge(out.ret, f.ret)}
+	}
+	return out
+}
+
+// execTypeSwitch (spawns mode): dynamic types of interface values are not modelled, so a type switch is a free choice
+// among its clauses (including "no clause" when there is no default); the variable bound by `switch x := v.(type)` is
+// the same opaque handle as v in every clause.
+func (x *Exec) execTypeSwitch(n *ast.TypeSwitchStmt, st *State, env *Env) Flow {
+	if n.Init != nil {
+		panic(unsupported("type switch with init statement"))
+	}
+	var src ast.Expr
+	switch a := n.Assign.(type) {
+	case *ast.AssignStmt:
+		src = a.Rhs[0].(*ast.TypeAssertExpr).X
+	case *ast.ExprStmt:
+		src = a.X.(*ast.TypeAssertExpr).X
+	}
+	v := x.eval(src, st, env)
+	choice := x.c.freshConst("typeswitch", "Int")
+	x.c.notes[x.fi.Key+": a type switch is a free choice among its clauses (dynamic types are not modelled)"] = true
+	hasDefault := false
+	var out Flow
+	for i, c := range n.Body.List {
+		cc := c.(*ast.CaseClause)
+		if cc.List == nil {
+			hasDefault = true
+		}
+		s := st.clone()
+		s.pc = x.namePC(and(st.pc, eq(choice, fmt.Sprint(i))))
+		if obj := env.info.Implicits[cc]; obj != nil {
+			if x.c.sortOf(obj.Type()) == "Int" {
+				s.vars[obj] = Val{T: v.T, Ty: obj.Type()}
+			} else {
+				s.vars[obj] = Val{T: x.c.freshConst("tsw_"+obj.Name(), x.c.sortOf(obj.Type())), Ty: obj.Type()} // arbitrary value of the clause's type
+			}
+		}
+		f := x.execBlock(cc.Body, s, env)
+		out = Flow{normal: x.merge(x.merge(out.normal, f.normal), f.brk), brk: out.brk, cont: x.merge(out.cont, f.cont), ret: x.merge(out.ret, f.ret)}
+	}
+	if !hasDefault {
+		s := st.clone()
+		s.pc = x.namePC(and(st.pc, or(app("<", choice, "0"), app(">=", choice, fmt.Sprint(len(n.Body.List))))))
+		out.normal = x.merge(out.normal, s)
+	}
+	return out
 }
 
 func (x *Exec) execAssign(n *ast.AssignStmt, st *State, env *Env) {
@@ -643,6 +754,10 @@ func (x *Exec) assignedIn(body ast.Node, info *types.Info) (vars map[types.Objec
 			}
 		case *ast.SendStmt:
 			ghosts = true
+		case *ast.UnaryExpr:
+			if n.Op == token.ARROW {
+				ghosts = true // a receive advances a family counter (spawns mode)
+			}
 		case *ast.FuncLit:
 			return false
 		}
@@ -786,6 +901,12 @@ func (x *Exec) havocLoop(body ast.Node, extra []types.Object, st *State, env *En
 				x.c.assumes = append(x.c.assumes, fmt.Sprintf("(forall ((h Int) (j Int)) (! (=> (and (<= 0 j) (< j (select %s h))) (= (select (select %s h) j) (select (select %s h) j))) :pattern ((select (select %s h) j))))", on, na, v.T, na))
 				h.gh[k] = Val{T: na}
 				h.gh["famn:"+es] = Val{T: nn}
+			case strings.HasPrefix(k, "famrecvn:"):
+				nn := x.c.freshConst("famrecvn", "(Array Int Int)")
+				x.c.assumes = append(x.c.assumes, fmt.Sprintf("(forall ((h Int)) (! (>= (select %s h) (select %s h)) :pattern ((select %s h))))", nn, v.T, nn))
+				h.gh[k] = Val{T: nn}
+			case strings.HasPrefix(k, "famenv:"):
+				// the environment streams are fixed for the whole call
 			case strings.HasPrefix(k, "famn:"):
 				// handled with famarr
 			case strings.HasPrefix(k, "failed:"):
@@ -1503,6 +1624,10 @@ func (x *Exec) ghostHandlesIn(body ast.Node, st *State, env *Env) (all bool, han
 		case *ast.GoStmt:
 			if x.con != nil && x.con.Spawns {
 				return false // skipped in spawns mode
+			}
+		case *ast.UnaryExpr:
+			if n.Op == token.ARROW {
+				all = true // a receive advances a family counter
 			}
 		case *ast.SendStmt:
 			if t, ok := termOf(n.Chan); ok {
